@@ -267,10 +267,9 @@ def judge (c out : List String) : Verdict :=
       let triv := d.feats.isEmpty && d.seq.length < 70
       { corr := out == m, judge := if inDom then some j else none,
         cls := (if triv then "triv:" else "") ++ "layout/" ++ lenClass d.seq.length
-               ++ (if ℓ.trailingSemi && !d.feats.isEmpty then "/kf:C14-trailing-semicolon"
-                   else if ℓ.crlf then "/kf:C14-crlf"
-                   else if !ℓ.preRegion.isEmpty then "/kf:C14-directive-before-region"
-                   else if (ℓ.between.any (!·.isEmpty)) || !ℓ.fastaBetween.isEmpty then "/skips" else ""),
+               ++ (if ℓ.trailingSemi then "/semi" else "") ++ (if ℓ.crlf then "/crlf" else "")
+               ++ (if !ℓ.preRegion.isEmpty then "/pre" else "")
+               ++ (if (ℓ.between.any (!·.isEmpty)) || !ℓ.fastaBetween.isEmpty then "/skips" else ""),
         detail := if out == m && (j || !inDom) then "" else lineOf m }
   | _ => { corr := false, judge := none, cls := "bad-case", detail := "bad case" }
 
